@@ -72,6 +72,8 @@ Inductive qexpr : Set :=
   | QTrue                                   (* the empty query string *)
   | QCol (c : cid)                          (* a bare boolean column:  `tracked` *)
   | QCmp (c : cid) (o : cmp) (k : cell)     (* column OP constant:     `age >= 3`, `sex == 'x'`, `tracked == False` *)
+  | QCmpC (c : cid) (o : cmp) (c' : cid)    (* column OP column:       `age > kids`, `sex != note` *)
+  | QIn (c : cid) (ks : list cell)          (* membership:             `age in [1, 3]`, `sex == ['x', 'y']` *)
   | QAnd (a b : qexpr)                      (* `and`, `&` *)
   | QOr (a b : qexpr)                       (* `or`, `|` *)
   | QNot (a : qexpr).                       (* `not`, `~` *)
@@ -109,6 +111,8 @@ Fixpoint eval (cs : list cid) (r : row) (q : qexpr) : bool :=
   | QTrue => true
   | QCol c => match cell_of cs r c with Bv b => b | _ => false end
   | QCmp c o k => eval_cmp o (cell_of cs r c) k
+  | QCmpC c o c' => eval_cmp o (cell_of cs r c) (cell_of cs r c')
+  | QIn c ks => existsb (eval_cmp CEq (cell_of cs r c)) ks
   | QAnd a b => eval cs r a && eval cs r b
   | QOr a b => eval cs r a || eval cs r b
   | QNot a => negb (eval cs r a)
@@ -120,17 +124,21 @@ Fixpoint qcols (q : qexpr) : list cid :=
   | QTrue => []
   | QCol c => [c]
   | QCmp c _ _ => [c]
+  | QCmpC c _ c' => [c; c']
+  | QIn c _ => [c]
   | QAnd a b | QOr a b => qcols a ++ qcols b
   | QNot a => qcols a
   end.
 
-(* manager.py:255  `"tracked" not in query`  - a substring test on the text; on the parsed expression: some atom names
-   the tracked column (the correspondence keeps every other name and constant free of the substring "tracked") *)
+(* manager.py:253-263 (as repaired by 8679fa8f, F-W): comments are dropped, then `\btracked\b` is searched outside
+   string constants - i.e. on the parsed expression: some atom names the tracked column.  Longer names (tracked_by),
+   string constants ('tracked') and comments (# tracked == True) do NOT count; the correspondence generates all three.
+   (Before 8679fa8f the test was `"tracked" not in query` on the raw text and all three escaped the default filter.) *)
 Definition mentions_tracked (q : qexpr) : bool := zmem TRACKED (qcols q).
 
 Definition tracked_true : qexpr := QCmp TRACKED CEq (Bv true).
 
-(* manager.py:253-260 (as repaired by 394c1d50): empty query -> the default alone; otherwise the user's query -
+(* manager.py:253-268 (as repaired by 394c1d50): empty (or comment-only) query -> the default alone; otherwise the user's query -
    parenthesised when it has a top-level `or` - `and tracked == True` *)
 Definition with_default (q : qexpr) : qexpr :=
   match q with
